@@ -132,7 +132,7 @@ def run(ctx: Ctx) -> int:
                 {"k": "bin", "op": rng.choice(["<", "==", ">="]), "l": {"k": "var", "n": a}, "r": {"k": "var", "n": b}}
         return {"k": "macro", "m": m, "x": xs, "v": v, "body": body}
     progs = []
-    for _ in range(400 if q else 10000):
+    for _ in range(400 if q else 50000):
         p = rand_macro(rng.randint(0, 2), ["x", "y"])
         p = {"k": "list", "xs": [p, {"k": "var", "n": "x"}, {"k": "var", "n": "y"}]}
         progs.append((p, outer))
